@@ -596,11 +596,11 @@ func init() {
 	CaseTiers["conc-C12"] = &CaseTier{Name: "conc-C12", Doc: doc, Run: run("C12"), Replay: replay("C12")}
 	CaseTiers["conc-C11"] = &CaseTier{Name: "conc-C11", Doc: doc, Run: run("C11"), Replay: replay("C11")}
 	Plans["C12"] = map[string][]Step{
-		"quick":    {{Tier: "conc-C12", Size: 0, Bound: 2}},
+		"quick":    {{Tier: "conc-C12", Size: 0, Bound: 3}},
 		"thorough": {{Tier: "conc-C12", Size: 0, Bound: 3}, {Tier: "conc-C12", Size: 1, Bound: 2}, {Tier: "conc-C12", Size: 2, Bound: 2}},
 	}
 	Plans["C11"] = map[string][]Step{
-		"quick":    {{Tier: "hist-C11", Size: 3, Bound: 1}, {Tier: "conc-C11", Size: 0, Bound: 2}},
+		"quick":    {{Tier: "hist-C11", Size: 3, Bound: 1}, {Tier: "conc-C11", Size: 0, Bound: 3}},
 		"thorough": {{Tier: "hist-C11", Size: 4, Bound: 1}, {Tier: "conc-C11", Size: 0, Bound: 3}, {Tier: "conc-C11", Size: 1, Bound: 2}, {Tier: "conc-C11", Size: 2, Bound: 2}},
 	}
 }
